@@ -252,12 +252,12 @@ def build(family, p):
         j = p['j']
 
         def h(code):
-            sel = decode_choice(code, [2 ** j, 2 ** j, 2, 2])
+            sel = decode_choice(code, [2 ** j, 2 ** j, 2, 2, 4])
             with notrace():
                 run(*sel)
             reached()
 
-        def run(tmask, answered, with_cb, later_kind):
+        def run(tmask, answered, with_cb, later_kind, cbh=0):
             from .c08 import _mk_conn, Sink
             clock = fresh_clock()
             message.DBusMessage._nextSerial = 100
@@ -287,11 +287,32 @@ def build(family, p):
             res3 = []
             c.getRemoteObject('org.b', '/p2', iface).addCallback(res3.append)
             px3 = res3[0]
-            px3.notifyOnDisconnect(lambda o, r: ran.append(('px3', r)))
+            want_extra = []
+
+            def subscribe(px, tag, hist):
+                # registration histories: callbacks cancelled and registered again before the loss
+                a = lambda o, r: ran.append((tag + 'a', r))
+                b = lambda o, r: ran.append((tag, r))
+                if hist == 0:
+                    px.notifyOnDisconnect(b)
+                elif hist == 1:
+                    px.notifyOnDisconnect(a)
+                    px.cancelNotifyOnDisconnect(a)
+                    px.notifyOnDisconnect(b)
+                elif hist == 2:
+                    px.notifyOnDisconnect(a)
+                    px.notifyOnDisconnect(b)
+                    px.cancelNotifyOnDisconnect(a)
+                else:
+                    px.notifyOnDisconnect(a)
+                    px.cancelNotifyOnDisconnect(a)
+                    return []
+                return [tag]
+            want_extra += subscribe(px3, 'px3', cbh)
             res4 = []
             c.getRemoteObject('org.b', '/p1', iface).addCallback(res4.append)
             px4 = res4[0]
-            px4.notifyOnDisconnect(lambda o, r: ran.append(('px4', r)))
+            want_extra += subscribe(px4, 'px4', (cbh + 1) % 4)
             message.DBusMessage._nextSerial = 200
             sinks = []
             for i in range(j):
@@ -311,7 +332,7 @@ def build(family, p):
                           'every outstanding call must fail once with the loss reason')
             check([dc for dc in clock.getDelayedCalls() if dc.active()] == [], 'a timer survived the loss of the connection')
             check(c._pendingCalls == {}, 'bookkeeping survived the loss of the connection')
-            want = (['conn'] if with_cb else []) + ['px1', 'px2', 'px3', 'px4']
+            want = (['conn'] if with_cb else []) + ['px1', 'px2'] + want_extra
             check(sorted(x[0] for x in ran) == sorted(want), 'every disconnect callback (connection and live proxies) must run exactly once')
             check(all(x[1] is reason for x in ran), 'disconnect callbacks must receive the loss reason')
             # nothing fires afterwards
@@ -325,8 +346,9 @@ def build(family, p):
                     c.methodReturnReceived(message.MethodReturnMessage(200 + i, body=[9], signature='i'))
             check([list(s.fired) for s in sinks] == before and len(ran) == nran, 'something fired after the connection was lost')
         h.__name__ = 'lost'
-        sizes = [2 ** j, 2 ** j, 2, 2]
-        return Spec(h, [('code', int)], witnesses=[(encode_choice([0, 0, 1, 0], sizes),),
-                                                    (encode_choice([2 ** j - 1, 0, 0, 1], sizes),),
-                                                    (encode_choice([0, 2 ** j - 1, 1, 1], sizes),)])
+        sizes = [2 ** j, 2 ** j, 2, 2, 4]
+        return Spec(h, [('code', int)], witnesses=[(encode_choice([0, 0, 1, 0, 0], sizes),),
+                                                    (encode_choice([2 ** j - 1, 0, 0, 1, 1], sizes),),
+                                                    (encode_choice([0, 2 ** j - 1, 1, 1, 2], sizes),),
+                                                    (encode_choice([0, 0, 0, 0, 3], sizes),)])
     raise KeyError(family)
